@@ -240,6 +240,12 @@ fn scenario(sc: &Sc, rep: &Report) -> Result<(), String> {
         }
         rep.count("signals_after_uptime_exceeded_shutdown_timeout", 1);
     }
+    // a client whose TCP connection is accepted before the signal and that sends its startup packet
+    // only afterwards (slow network, TLS handshake, password prompt)
+    let mut slow_starter = if sc.signal != "sigterm" && sc.in_txn > 0 && sc.remaining_ms >= 300 { Conn::raw(&addr).ok() } else { None };
+    if slow_starter.is_some() {
+        sleep_ms(30);
+    }
     let log_from = cell.pg().log_len();
     let ts = now_ns();
     match sc.signal.as_str() {
@@ -279,6 +285,49 @@ fn scenario(sc: &Sc, rep: &Report) -> Result<(), String> {
                     }
                     Err(_) => rep.count("late_logins_refused", 1),
                 }
+            }
+            if let Some(mut c) = slow_starter.take() {
+                let mut logged_in = false;
+                if c.send(&crate::proto::startup_message(&[("user".into(), USER.into()), ("database".into(), "db".into()), ("application_name".into(), "slow".into())])).is_ok() {
+                    for _ in 0..40 {
+                        match c.read_msg(3000) {
+                            Ok(m) if m.typ == b'R' && m.body.len() >= 8 && m.body[..4] == [0, 0, 0, 5] => {
+                                let resp = crate::util::md5_password_response(USER, PASS, &[m.body[4], m.body[5], m.body[6], m.body[7]]);
+                                if c.send(&crate::proto::password_message(&resp)).is_err() {
+                                    break;
+                                }
+                            }
+                            Ok(m) if m.typ == b'Z' => {
+                                logged_in = true;
+                                break;
+                            }
+                            Ok(m) if m.typ == b'E' => break,
+                            Ok(_) => {}
+                            Err(_) => break,
+                        }
+                    }
+                }
+                rep.count("slow_starters_checked", 1);
+                if logged_in {
+                    rep.count("slow_starters_logged_in", 1);
+                    sleep_ms(300);
+                    let mut served = 0;
+                    for k in 0..2 {
+                        match c.query(&format!("SELECT 1 {}", tag("slow", &format!("slow.q{}", k), "rows=1")), 3000) {
+                            Ok(m) if crate::wire::first_error(&m).is_none() && !crate::wire::row_idents(&m).is_empty() => served += 1,
+                            _ => break,
+                        }
+                        sleep_ms(100);
+                    }
+                    if served > 0 {
+                        rep.violation(
+                            &format!("C17|client_that_finished_its_login_after_the_signal_was_served_transactions|signal={}", sc.signal),
+                            &format!("a non-admin client whose connection was accepted before {} and whose startup packet followed it was logged in and then served {} new transactions 300+ ms later", sc.signal, served),
+                            json!({"scenario": format!("{:?}", sc)}),
+                        );
+                    }
+                }
+                let _ = c.drain_to_eof(500);
             }
             match Conn::connect(&addr, &StartupOpts::new(ADMIN_USER, "pgcat", ADMIN_PASS)) {
                 Ok(mut a) => {
